@@ -236,6 +236,33 @@ def impl_masked(v):
            ("trk", {"tracklet": True}), ("lin", {"lineage": True})]
     out["history"] = [[name, run_vd(g, cfg)] for name, cfg in seq]
     out["history_modified"] = snap() != before
+    # ONE ValidationConfig object re-used over several geffs with different declarations: the
+    # verdict on the last one must be that of a fresh config, and the object must stay as it was
+    import geff_spec
+    from geff.validate.data import ValidationConfig, validate_data
+
+    cfg = ValidationConfig(lineage=True, tracklet=True, sphere=True, ellipsoid=True)
+    cfg0 = cfg.model_dump()
+    c = v["case"]
+    others = []
+    for tnp in (None, {"tracklet": "trk"}, {"lineage": "lin"}):
+        g2 = masked_geff(v)
+        md = g2["metadata"]
+        g2["metadata"] = geff_spec.GeffMetadata(geff_version="1.0.0", directed=True, node_props_metadata=md.node_props_metadata,
+                                                edge_props_metadata={}, track_node_props=tnp)
+        try:
+            validate_data(g2, cfg)
+            others.append("ok")
+        except Exception as ex:  # noqa: BLE001
+            others.append(type(ex).__name__)
+    try:
+        validate_data(masked_geff(v), cfg)
+        out["reused_config"] = "ok"
+    except ValueError:
+        out["reused_config"] = "ValueError"
+    except Exception as ex:  # noqa: BLE001
+        out["reused_config"] = type(ex).__name__
+    out["config_modified"] = cfg.model_dump() != cfg0
     return out
 
 
@@ -534,6 +561,13 @@ def run(ck: common.Check):
             ck.fail("C14:validator-modifies-input", "validate_data modified an array of the in-memory geff it validated "
                     f"(masks: lineage {v['lin_missing']}, tracklet {v['trk_missing']})", {"masked": v}, r, None)
             continue
+        if r["config_modified"]:
+            ck.fail("C14:validate-modifies-config", "validate_data modified the caller's ValidationConfig object", {"masked": v}, r, None)
+            continue
+        if r["reused_config"] != r["all"]:
+            ck.fail("C14:history-dependent-verdict", f"a ValidationConfig object re-used after geffs with other declarations gives {r['reused_config']}, "
+                    f"a fresh equal config gives {r['all']}", {"masked": v}, r, r["all"])
+            continue
         bad_steps = [(i, name, got) for i, (name, got) in enumerate(r["history"]) if got != r[name]]
         if bad_steps:
             i, name, got = bad_steps[0]
@@ -598,6 +632,7 @@ def replay(rp):
         want_both = "ValueError" if (r["trk"] == "ValueError" or not l_valid) else "ok"
         ok = r["lin"] == want_lin and (r["trk"] not in ("ok", "ValueError") or (r["both"] == want_both and r["all"] == want_both))
         ok = ok and not r["history_modified"] and all(got == r[name] for name, got in r["history"])
+        ok = ok and not r["config_modified"] and r["reused_config"] == r["all"]
         print(json.dumps({"case": v, "impl": r, "expected": {"lin": want_lin, "both": want_both}}))
         print("REPLAY: property holds on this input" if ok else "REPLAY: property FAILS on this input")
         return 0 if ok else 1
